@@ -37,6 +37,7 @@ import (
 	"time"
 
 	"verifmc/internal/ev"
+	"verifmc/internal/nohb"
 )
 
 const T0ms = uint64(1700000000123)
@@ -61,6 +62,10 @@ type cf = field[Case]
 type ca = alt[Case]
 
 func main() {
+	if nohb.IsWorker() {
+		nohb.WorkerMain(reentrantOps(), reentrantRepoDir())
+		return
+	}
 	log.SetOutput(io.Discard) // ct.verifySignature logs "Garbage following signature"
 	ev.Main("C16", "model_checking", func(c *ev.Ctx) {
 		c.Rule("G-field: every assignment with at most d non-default fields (d printed per space) over boundary alphabets; " +
@@ -70,7 +75,10 @@ func main() {
 			"Verifier: additionally 5 non-DER encodings of each genuine ECDSA signature (extra element / stray byte inside the SEQUENCE, long-form lengths, padded r) must be refused, " +
 			"a reduced deviation menu under RSA-3072 and RSA-4096 log keys, every log key loaded through PEM -> PublicKeyFromPEM -> NewSignatureVerifier. " +
 			"Text forms: MarshalJSON of DigitallySigned, SHA256Hash and SCT for every value of A1/A2 in both packages. " +
-			"History oracle: every function returning []byte (23, both packages) x every ordered pair of its 3-4 value alphabet.")
+			"History oracle: every function returning []byte (23, both packages) x every ordered pair of its 3-4 value alphabet. " +
+			"Entry points (entry.go): E0 the exported functions of ct/{serialization,types,signatures}.go and x509/ct/{serialization,types}.go are listed with go/parser, every serialisation entry point must be driven (else the run is incomplete); " +
+			"E1 ct.SerializeSCTHere x buffer {nil, empty non-nil, exact, +1, +4096 garbage, -1, header only, short length/large capacity} x the full product version{0,1} x extensions{0,1,2,255,256,65535,65536,65537} x signature{0,1,255,256,65535,65536,65537} x timestamp(2) x ids(2) x log id(2): the oracle of SerializeSCT (reference bytes + round trip, or an error; a value without serialisation must be refused whatever the buffer), ErrNotEnoughBuffer for a too-small buffer, result inside the caller's buffer; " +
+			"E2 every exported serialiser (19 entry-point variants incl. text forms, SerializedLength and SerializeSCTHere with one re-used caller buffer) x all sequences of two calls (first: base with one field replaced; second: one field replaced by a new object, or overwritten in place, or nothing) sharing every other Go object, run on one goroutine: each result equals the reference of the value passed to that call.")
 		c.Assume("reference = harness transcription of RFC 6962 §3.1-3.5/§4.6 and RFC 5246 DigitallySigned (model.go)",
 			"crypto/rsa, crypto/ecdsa, crypto/sha* of the Go standard library are correct",
 			"signatures are made by the standard library (PKCS#1 v1.5; ECDSA with a nil reader = RFC 6979), over the reference input, never over zcrypto's output",
@@ -98,13 +106,14 @@ func main() {
 		for _, p := range []struct {
 			name string
 			f    func(*ev.Ctx)
-		}{{"A", partA}, {"B", partB}, {"C", partC}, {"K", partKeys}, {"H", partAlias}} {
+		}{{"E0", partInventory}, {"E2", partEntryHistories}, {"A", partA}, {"E1", partHere}, {"B", partB}, {"C", partC}, {"K", partKeys}, {"H", partAlias}} {
 			t := time.Now()
 			p.f(c)
 			c.Set("wall_s:part"+p.name, time.Since(t).Seconds())
 		}
 		publishObservations(c)
 		reportViolations(c)
+		reentrantPhase(c)
 	})
 }
 
